@@ -190,108 +190,139 @@ func leanBytes(s string) string {
 
 type constSpec struct{ lean, dir, name string }
 
-var constSpecs = []constSpec{
-	{"turbotunnel_queueSize", "common/turbotunnel", "queueSize"},
-	{"turbotunnel_Token", "common/turbotunnel", "Token"},
-	{"broker_readLimit", "broker", "readLimit"},
-	{"broker_ClientTimeout", "broker", "ClientTimeout"},
-	{"broker_ProxyTimeout", "broker", "ProxyTimeout"},
-	{"broker_NATUnknown", "broker", "NATUnknown"},
-	{"broker_NATRestricted", "broker", "NATRestricted"},
-	{"broker_NATUnrestricted", "broker", "NATUnrestricted"},
-	{"messages_version", "common/messages", "version"},
-	{"messages_ClientVersion", "common/messages", "ClientVersion"},
-	{"messages_defaultBridgeFingerprint", "common/messages", "defaultBridgeFingerprint"},
-	{"messages_StrTimedOut", "common/messages", "StrTimedOut"},
-	{"messages_StrNoProxies", "common/messages", "StrNoProxies"},
-	{"amp_boilerplateStart", "common/amp", "boilerplateStart"},
-	{"amp_boilerplateEnd", "common/amp", "boilerplateEnd"},
-	{"amp_elementSizeLimit", "common/amp", "elementSizeLimit"},
-	{"amp_bytesPerChunk", "common/amp", "bytesPerChunk"},
-	{"amp_chunksPerElement", "common/amp", "chunksPerElement"},
-	{"server_clientIDAddrMapCapacity", "server/lib", "clientIDAddrMapCapacity"},
-	{"server_clientMapTimeout", "server/lib", "clientMapTimeout"},
-	{"client_readLimit", "client/lib", "readLimit"},
-	{"client_DataChannelTimeout", "client/lib", "DataChannelTimeout"},
-	{"client_ReconnectTimeout", "client/lib", "ReconnectTimeout"},
-	{"client_SnowflakeTimeout", "client/lib", "SnowflakeTimeout"},
-	{"proxy_dataChannelTimeout", "proxy/lib", "dataChannelTimeout"},
-	{"proxy_readLimit", "proxy/lib", "readLimit"},
-	{"proxy_pollInterval", "proxy/lib", "pollInterval"},
-	{"safelog_ipv4Address", "common/safelog", "ipv4Address"},
-	{"safelog_ipv6Address", "common/safelog", "ipv6Address"},
-	{"safelog_optionalPort", "common/safelog", "optionalPort"},
-	{"safelog_addressPattern", "common/safelog", "addressPattern"},
-	{"safelog_fullAddrPattern", "common/safelog", "fullAddrPattern"},
+// special constant kinds
+type specialSpec struct {
+	lean string
+	kind string // "makeLen" (len of make([]byte, N) var), "mapKeys" (sorted keys of a map[string]bool literal)
+	dir  string
+	name string
 }
 
-func emitConsts() string {
-	var b strings.Builder
-	b.WriteString("/- GENERATED by /verif/extract from the repository working tree. Do not edit. -/\nnamespace Snowflake.Gen.Consts\n\n")
-	for _, c := range constSpecs {
-		p := loadPkg(c.dir)
-		e, ok := p.vals[c.name]
-		if !ok {
-			fmt.Fprintf(&b, "/-- `%s.%s` not found in the source. -/\ntheorem translator_unsupported_%s : False := by trivial\n\n", c.dir, c.name, c.lean)
-			continue
-		}
-		v := p.eval(e, 0)
-		switch {
-		case !v.ok:
-			// composite literal of bytes, e.g. Token = [8]byte{...}
-			if bs, ok := p.byteLit(e); ok {
-				fmt.Fprintf(&b, "/-- `%s.%s` -/\ndef %s : List UInt8 := %s\n\n", c.dir, c.name, c.lean, leanBytes(string(bs)))
-			} else {
-				fmt.Fprintf(&b, "/-- `%s.%s` is outside the constant subset. -/\ntheorem translator_unsupported_%s : False := by trivial\n\n", c.dir, c.name, c.lean)
-			}
-		case v.isStr:
-			fmt.Fprintf(&b, "/-- `%s.%s` (bytes of the Go string) -/\ndef %s : List UInt8 := %s\n\n", c.dir, c.name, c.lean, leanBytes(v.s))
-		default:
-			fmt.Fprintf(&b, "/-- `%s.%s` -/\ndef %s : Int := %d\n\n", c.dir, c.name, c.lean, v.n)
-		}
+type regexSpec struct {
+	lean string
+	dir  string
+	name string // const/var name holding the pattern string, or var holding MustCompile calls (index selects)
+	idx  int    // for vars with several regexp.MustCompile calls: which one (-1: the named string const itself)
+}
+
+// group = one generated Lean module Snowflake/Generated/<Name>.lean, namespace Snowflake.Gen.<Name>.
+// A refusal inside one group breaks only the properties that import that group.
+type group struct {
+	name     string
+	consts   []constSpec
+	specials []specialSpec
+	fns      []fnSpec
+	conds    []condSpec
+	skels    []skelSpec
+	regexes  []regexSpec
+}
+
+var groups []*group
+
+func register(g *group) { groups = append(groups, g) }
+
+func emitConst(b *strings.Builder, c constSpec) {
+	p := loadPkg(c.dir)
+	e, ok := p.vals[c.name]
+	if !ok {
+		fmt.Fprintf(b, "/-- `%s.%s` not found in the source. -/\ntheorem translator_unsupported_%s : False := by trivial\n\n", c.dir, c.name, c.lean)
+		return
 	}
-	// len(paddingBuffer): make([]byte, N)
-	pe := loadPkg("common/encapsulation")
-	if e, ok := pe.vals["paddingBuffer"]; ok {
+	v := p.eval(e, 0)
+	switch {
+	case !v.ok:
+		if bs, ok := p.byteLit(e); ok {
+			fmt.Fprintf(b, "/-- `%s.%s` -/\ndef %s : List UInt8 := %s\n\n", c.dir, c.name, c.lean, leanBytes(string(bs)))
+		} else {
+			fmt.Fprintf(b, "/-- `%s.%s` is outside the constant subset. -/\ntheorem translator_unsupported_%s : False := by trivial\n\n", c.dir, c.name, c.lean)
+		}
+	case v.isStr:
+		fmt.Fprintf(b, "/-- `%s.%s` (bytes of the Go string) -/\ndef %s : List UInt8 := %s\n\n", c.dir, c.name, c.lean, leanBytes(v.s))
+	default:
+		fmt.Fprintf(b, "/-- `%s.%s` -/\ndef %s : Int := %d\n\n", c.dir, c.name, c.lean, v.n)
+	}
+}
+
+func emitSpecial(b *strings.Builder, sp specialSpec) {
+	p := loadPkg(sp.dir)
+	e, ok := p.vals[sp.name]
+	fail := func() {
+		fmt.Fprintf(b, "/-- `%s.%s` (%s) could not be extracted. -/\ntheorem translator_unsupported_%s : False := by trivial\n\n", sp.dir, sp.name, sp.kind, sp.lean)
+	}
+	if !ok {
+		fail()
+		return
+	}
+	switch sp.kind {
+	case "makeLen":
 		if call, ok := e.(*ast.CallExpr); ok && len(call.Args) == 2 {
-			if v := pe.eval(call.Args[1], 0); v.ok && !v.isStr {
-				fmt.Fprintf(&b, "/-- `len(encapsulation.paddingBuffer)` -/\ndef encapsulation_paddingBufferLen : Int := %d\n\n", v.n)
+			if v := p.eval(call.Args[1], 0); v.ok && !v.isStr {
+				fmt.Fprintf(b, "/-- `len(%s.%s)` -/\ndef %s : Int := %d\n\n", sp.dir, sp.name, sp.lean, v.n)
+				return
 			}
 		}
-	}
-	// KnownProxyTypes: map[string]bool{...}
-	pm := loadPkg("common/messages")
-	if e, ok := pm.vals["KnownProxyTypes"]; ok {
-		if cl, ok := e.(*ast.CompositeLit); ok {
-			var keys []string
-			good := true
-			for _, el := range cl.Elts {
-				kv, ok := el.(*ast.KeyValueExpr)
-				if !ok {
-					good = false
-					break
-				}
-				k := pm.eval(kv.Key, 0)
-				val, isId := kv.Value.(*ast.Ident)
-				if !k.ok || !k.isStr || !isId || val.Name != "true" {
-					good = false
-					break
-				}
-				keys = append(keys, k.s)
-			}
-			if good {
-				sort.Strings(keys)
-				var parts []string
-				for _, k := range keys {
-					parts = append(parts, leanBytes(k))
-				}
-				fmt.Fprintf(&b, "/-- keys of `messages.KnownProxyTypes` (all mapped to true), sorted -/\ndef messages_KnownProxyTypes : List (List UInt8) := [%s]\n\n", strings.Join(parts, ", "))
-			} else {
-				b.WriteString("theorem translator_unsupported_messages_KnownProxyTypes : False := by trivial\n\n")
-			}
+		fail()
+	case "mapKeys":
+		cl, ok := e.(*ast.CompositeLit)
+		if !ok {
+			fail()
+			return
 		}
+		var keys []string
+		for _, el := range cl.Elts {
+			kv, ok := el.(*ast.KeyValueExpr)
+			if !ok {
+				fail()
+				return
+			}
+			k := p.eval(kv.Key, 0)
+			val, isId := kv.Value.(*ast.Ident)
+			if !k.ok || !k.isStr || !isId || val.Name != "true" {
+				fail()
+				return
+			}
+			keys = append(keys, k.s)
+		}
+		sort.Strings(keys)
+		var parts []string
+		for _, k := range keys {
+			parts = append(parts, leanBytes(k))
+		}
+		fmt.Fprintf(b, "/-- keys of `%s.%s` (all mapped to true), sorted -/\ndef %s : List (List UInt8) := [%s]\n\n", sp.dir, sp.name, sp.lean, strings.Join(parts, ", "))
+	default:
+		fail()
 	}
-	b.WriteString("end Snowflake.Gen.Consts\n")
+}
+
+func emitGroup(g *group) string {
+	var b strings.Builder
+	b.WriteString("import Snowflake.Base.GoStr\n")
+	if len(g.regexes) > 0 {
+		b.WriteString("import Snowflake.Base.Rx\n")
+	}
+	b.WriteString("/- GENERATED by /verif/extract from the repository working tree. Do not edit. -/\n")
+	if len(g.regexes) > 0 {
+		b.WriteString("set_option maxRecDepth 100000\n")
+	}
+	fmt.Fprintf(&b, "namespace Snowflake.Gen.%s\n\n", g.name)
+	for _, c := range g.consts {
+		emitConst(&b, c)
+	}
+	for _, sp := range g.specials {
+		emitSpecial(&b, sp)
+	}
+	declared := map[string]bool{}
+	for _, fs := range g.fns {
+		emitFn(&b, fs, declared)
+	}
+	emitConds(&b, g.conds)
+	for _, sp := range g.skels {
+		emitSkel(&b, sp)
+	}
+	for _, rs := range g.regexes {
+		emitRegexSpec(&b, rs)
+	}
+	fmt.Fprintf(&b, "end Snowflake.Gen.%s\n", g.name)
 	return b.String()
 }
 
@@ -332,8 +363,16 @@ func main() {
 		outDir = os.Args[2]
 	}
 	os.MkdirAll(outDir, 0o755)
-	writeIfChanged(filepath.Join(outDir, "Consts.lean"), emitConsts())
-	writeIfChanged(filepath.Join(outDir, "Funcs.lean"), emitFuncs())
-	writeIfChanged(filepath.Join(outDir, "Skeleton.lean"), emitSkeletons())
-	writeIfChanged(filepath.Join(outDir, "Regex.lean"), emitRegex())
+	keep := map[string]bool{}
+	for _, g := range groups {
+		writeIfChanged(filepath.Join(outDir, g.name+".lean"), emitGroup(g))
+		keep[g.name+".lean"] = true
+	}
+	// delete stale generated modules
+	ents, _ := os.ReadDir(outDir)
+	for _, e := range ents {
+		if strings.HasSuffix(e.Name(), ".lean") && !keep[e.Name()] {
+			os.Remove(filepath.Join(outDir, e.Name()))
+		}
+	}
 }
